@@ -4,6 +4,7 @@ Model Gds/GdsRead.v (total, explicit Panic / OutOfFuel), theorems Properties/C10
 correspondence by fault injection against gds21::GdsLibrary::from_bytes (+ write + re-read)."""
 import json, os, sys, time
 from vlib import *
+from props.kernelcommon import kernel_tie_leg
 from props.gdscommon import *
 
 HARNESS_BINS = ["c01"]
@@ -438,6 +439,7 @@ def classify(c, impl):
 
 def run(chk, replay=None):
     chk.proof_leg(MODEL_TARGETS + ["Gds/GdsPack.vo"], "Properties/C10.v", C10_PROOF_FILES, "Properties.C10")
+    kernel_tie_leg(chk, "gds_read")       # GdsReader::read_record_header / read_record_content / read_record generated from gds21/src/read.rs = read_header / read_content / read_record of the reader model (Properties/KernelsGdsCodec.v)
     chk.assumptions += [
         "time and stack use of the implementation are measured, not proved (DESIGN.md section 4): the model-level statement is a bound on fuel / records read",
         "out-of-bounds reads cannot be expressed in the model other than as Panic (every slice is checked); the correspondence shows the impl agrees class by class",
